@@ -51,3 +51,11 @@ Theorem sm_read_example_two_charts :
                          [KHit; KHold; KRoll; KMine; KLift; KFake; KKey]
   | None => false end = true.
 Proof. vm_compute. auto. Qed.
+
+(* non-vacuity of the on-lines guard: two tempo changes (given out of order) at beats 0 and 4 *)
+Theorem sm_read_example_on_lines :
+  c02_domb w_read_on_lines = true /\ sm_tempo_on_lines w_read_on_lines = true /\
+  match sm_denote w_read_on_lines, sm_read live_conf current w_read_on_lines with
+  | Some d, Some s => (length (d_tempo d) =? 2)%nat && forallb (fun c => (length (c_bpms c) =? 2)%nat) (s_maps s)
+  | _, _ => false end = true.
+Proof. vm_compute. auto. Qed.
